@@ -29,7 +29,7 @@
 (***************************************************************************)
 EXTENDS Integers, Sequences, FiniteSets, TLC
 
-Tok(c, dir, p) == c * 1000 + dir * 100 + p
+Tok(c, dir, p) == c * 100000 + dir * 10000 + p
 Toks(c, dir, a, b) == [i \in 1 .. (IF b >= a THEN b - a + 1 ELSE 0) |-> Tok(c, dir, a + i - 1)]
 Other(dir) == 3 - dir
 SeqRange(s) == {s[i] : i \in DOMAIN s}
